@@ -83,6 +83,7 @@ func TestVerif_C17_Hazard(t *testing.T) {
 	defer rep.Write(t)
 	cases := kit.LoadCases(t, "behaviours.ndjson")
 	wait := time.Duration(kit.IntEnv("VERIF_PARK_MS", 120)) * time.Millisecond
+	lostWait, lost := 30*time.Second, 0
 
 	for _, c := range cases {
 		steps := c.Get("steps").List()
@@ -135,8 +136,21 @@ func TestVerif_C17_Hazard(t *testing.T) {
 			rig.ticks <- uint64(sentTicks + 1)
 			sentTicks++
 		}
-		if !gate.WaitArrived(c17Done, total, 10*time.Second) {
-			t.Fatalf("callbacks did not finish (%d of %d)", gate.Arrived(c17Done), total)
+		if !gate.WaitArrived(c17Done, total, lostWait) {
+			lostWait = time.Second // the first occurrence was given 30 s; later ones need not wait as long
+			lost++
+			// every tick accepted by the ticker must run the strategy once (that is what "retransmitted at
+			// ticks 1, 3, 6, ..." counts); a tick that never reaches the strategy is a lost tick
+			rep.Eval("lost:"+kit.Hash(c.Get("steps").X), nil)
+			rep.Diverge("hazard:lost-ticks",
+				fmt.Sprintf("%d ticks were accepted by the ticker but only %d tick callbacks ran within the wait bound (30 s for the first occurrence): ticks arriving while another callback of the same message is in flight are lost", total, gate.Arrived(c17Done)),
+				c.X, total, gate.Arrived(c17Done))
+			rig.close()
+			verifhook.Uninstall()
+			if lost >= 5 {
+				break
+			}
+			continue
 		}
 		observed := int(atomic.LoadInt64(&rig.retx))
 		expected := c17Sched(total)
